@@ -140,6 +140,7 @@ fn c03_enumerated(seed: u64) -> Vec<Value> {
                 wire: (i + point) % 2 == 0,
                 crash: "none".into(),
                 crash_steps: vec![],
+                entropy: vec![],
             };
             v.push(case_of(&plan, json!({})));
         }
@@ -273,6 +274,7 @@ fn c04_enumerated(seed: u64) -> Vec<Value> {
             wire: true,
             crash: "none".into(),
             crash_steps: vec![],
+            entropy: vec![],
         };
         v.push(case_of(&plan, json!({})));
     }
@@ -378,6 +380,7 @@ impl Prop for C05 {
                 wire: i % 2 == 0,
                 crash: "none".into(),
                 crash_steps: vec![],
+                entropy: vec![],
             };
             v.push(case_of(&plan, json!({})));
         }
@@ -582,13 +585,21 @@ fn atoms_of(t: &Trace, lens: &[usize]) -> Vec<(Vec<u8>, String)> {
 
 /// Post-run oracle over the recorded message history.
 pub fn c14_oracle(plan: &Plan, rr: &RunResult, o: &mut Outcome) {
-    let lens = [32usize, 48, 96];
+    // Under an injected entropy fault scalars may legitimately coincide (a zero blinding factor
+    // is the customer's own entropy failing, not a protocol leak); what must still hold is that
+    // no *signature element* shown by the customer repeats one the merchant has seen.
+    let faulty_entropy = !plan.entropy.is_empty();
+    let lens_all = [32usize, 48, 96];
+    let lens_groups = [48usize, 96];
+    let lens: &[usize] = if faulty_entropy { &lens_groups } else { &lens_all };
+    let g1_id = refc::bad::g1_identity().to_vec();
+    let g2_id = refc::bad::g2_identity().to_vec();
     // the merchant's view: public parameters first
     let mut seen: BTreeSet<Vec<u8>> = BTreeSet::new();
     let mut seen_from: std::collections::BTreeMap<Vec<u8>, String> = std::collections::BTreeMap::new();
     for ms in &plan.merchants {
         let m = merchant(ms);
-        for (b, p) in atoms_of(&m.ccfg_trace, &lens) {
+        for (b, p) in atoms_of(&m.ccfg_trace, lens) {
             seen_from.entry(b.clone()).or_insert_with(|| format!("public parameters ({})", p));
             seen.insert(b);
         }
@@ -601,7 +612,12 @@ pub fn c14_oracle(plan: &Plan, rr: &RunResult, o: &mut Outcome) {
             Some(t) => t,
             None => continue,
         };
-        let mine = atoms_of(t, &lens);
+        // under an entropy fault only signature elements are judged (a commitment made with a
+        // zero blinding factor may legitimately equal a public generator)
+        let mine: Vec<(Vec<u8>, String)> = atoms_of(t, lens)
+            .into_iter()
+            .filter(|(b, p)| *b != g1_id && *b != g2_id && (!faulty_entropy || p.contains("sigma")))
+            .collect();
         if ev.dir == Dir::C2M {
             customer_messages += 1;
             let kind_site = ev.kind.clone();
@@ -632,15 +648,15 @@ pub fn c14_oracle(plan: &Plan, rr: &RunResult, o: &mut Outcome) {
             match ev.kind.as_str() {
                 "establish-proof" => {
                     if let Some((_, img)) = &ev.image_after {
-                        secrets.extend(atoms_of(img, &lens));
+                        secrets.extend(atoms_of(img, lens));
                     }
                 }
                 "start-message" => {
                     if let Some((_, img)) = &ev.image_before {
-                        secrets.extend(atoms_of(img, &lens));
+                        secrets.extend(atoms_of(img, lens));
                     }
                     if let Some((_, img)) = &ev.image_after {
-                        secrets.extend(atoms_of(img, &lens));
+                        secrets.extend(atoms_of(img, lens));
                     }
                     // the nonce shown by this message is disclosed by design
                     exempt.insert(t.get("[0]").to_vec());
@@ -648,12 +664,12 @@ pub fn c14_oracle(plan: &Plan, rr: &RunResult, o: &mut Outcome) {
                 "lock-message" => {
                     // the whole content is disclosed by design; it must not contain anything of the new state
                     if let Some((_, img)) = &ev.image_after {
-                        secrets.extend(atoms_of(img, &lens));
+                        secrets.extend(atoms_of(img, lens));
                     }
                 }
                 "closing-message" => {
                     if let Some((_, img)) = &ev.image_before {
-                        secrets.extend(atoms_of(img, &lens));
+                        secrets.extend(atoms_of(img, lens));
                     }
                     exempt.insert(t.get("close_state.revocation_lock").to_vec());
                 }
@@ -673,7 +689,7 @@ pub fn c14_oracle(plan: &Plan, rr: &RunResult, o: &mut Outcome) {
                 }
             }
             // (3) hidden balances as scalars (pay proofs hide them)
-            if ev.kind == "start-message" {
+            if ev.kind == "start-message" && !faulty_entropy {
                 for img in [&ev.image_before, &ev.image_after].iter().filter_map(|x| x.as_ref()) {
                     for a in img.1.atoms.iter().filter(|a| a.kind == AtomKind::U64 && a.path.contains("balance")) {
                         let mut x = [0u8; 8];
@@ -739,7 +755,21 @@ impl Prop for C14 {
         p.payments = (0, 3);
         p.reply_fault = (30, 100);
         p.fault_free_pct = 30;
-        case_of(&gen_plan(mix(&[seed, 0xC14A, idx as u64]), &p), json!({}))
+        let mut plan = gen_plan(mix(&[seed, 0xC14A, idx as u64]), &p);
+        if idx % 3 == 2 {
+            // entropy faults on the customer's generators: a zero draw inside start / close
+            let mut sch = Sched::new(mix(&[seed, 0xC14E, idx as u64]), "c14/entropy");
+            for ci in 0..plan.channels.len() {
+                let np = plan.channels[ci].payments.len();
+                if np > 0 && sch.chance(2, 3) {
+                    plan.entropy.push((ci, sch.usize(np) as i32, "start".into(), sch.usize(92), 1));
+                }
+                if sch.chance(1, 2) {
+                    plan.entropy.push((ci, 9999, "close".into(), 0, 1));
+                }
+            }
+        }
+        case_of(&plan, json!({}))
     }
     fn run(&self, case: &Value) -> Outcome {
         let mut o = Outcome::default();
@@ -754,13 +784,13 @@ impl Prop for C14 {
         shrink_world_case(case)
     }
     fn rule(&self) -> String {
-        "one case = one multi-channel plan (2-4 channels over two merchants, 0-3 payments each, closes from every stage, refused replies, drawn interleaving); after the run every 32/48/96-byte atom of every customer-to-merchant message is compared with all atoms of all earlier messages in either direction and of the public parameters (channel id exempt), with the atoms of the customer's stage image before/after the step minus what the message discloses by design, and with the scalar encodings of hidden balances. Distinct = distinct executed event/outcome sequence; non-trivial = at least three customer messages were checked".into()
+        "one case = one multi-channel plan (2-4 channels over two merchants, 0-3 payments each, closes from every stage, refused replies, drawn interleaving; in a third of the cases additionally a zero draw injected at a drawn draw index of the customer's generator inside start / close, in which case only signature elements are judged and the identity is exempt); after the run every 32/48/96-byte atom of every customer-to-merchant message is compared with all atoms of all earlier messages in either direction and of the public parameters (channel id exempt), with the atoms of the customer's stage image before/after the step minus what the message discloses by design, and with the scalar encodings of hidden balances. Distinct = distinct executed event/outcome sequence; non-trivial = at least three customer messages were checked".into()
     }
     fn assumptions(&self) -> Vec<String> {
         vec!["exact-value reuse is a necessary condition for unlinkability, not a proof of zero knowledge".into(), "equalities inside one message (linked response scalars) are allowed".into()]
     }
     fn required_probes(&self, _tier: Tier) -> Vec<&'static str> {
-        vec!["probe.customer_messages_checked", "probe.payment_completed", "probe.stop_at_started", "probe.stop_at_locked"]
+        vec!["probe.customer_messages_checked", "probe.payment_completed", "probe.stop_at_started", "probe.stop_at_locked", "fault.entropy.customer-zero-draw"]
     }
 }
 
